@@ -74,3 +74,327 @@ Lemma recalc_sets_winner : forall cfg k s,
   lookup rkey_eqb (s_desired (recalc cfg k s)) k = winner cfg s k
   /\ forall k', k <> k' -> lookup rkey_eqb (s_desired (recalc cfg k s)) k' = lookup rkey_eqb (s_desired s) k'.
 Proof. intros; split; [apply recalc_desired_at | intros; apply recalc_desired_other; auto]. Qed.
+
+(* ================================================================================================
+   Convergence of one attemptApply that performs the full resync.
+   ================================================================================================ *)
+
+Lemma kroute_eqb_spec : forall a b, kroute_eqb a b = true <-> a = b.
+Proof.
+  intros [a1 a2 a3 a4 a5 a6 a7 a8] [b1 b2 b3 b4 b5 b6 b7 b8]. unfold kroute_eqb. simpl.
+  rewrite !andb_true_iff, !N.eqb_eq, Bool.eqb_true_iff.
+  split.
+  - intros [[[[[[[-> ->] ->] ->] ->] ->] ->] ->]. reflexivity.
+  - intros H. inversion H. subst. repeat split; reflexivity.
+Qed.
+
+Definition tbl (cfg : config) (e : env) (k : rkey) : option kroute := lookup kkey_eqb (e_routes e) (c_table cfg, k).
+
+(* things that only depend on a few fields of the state *)
+Lemma ours_ext : forall cfg s s' r, s_i2n s = s_i2n s' -> kroute_is_ours cfg s r = kroute_is_ours cfg s' r.
+Proof. intros. unfold kroute_is_ours. rewrite H. reflexivity. Qed.
+
+Lemma in_grace_ext : forall cfg now s s' idx, s_grace s = s_grace s' -> s_i2n s = s_i2n s' ->
+  in_grace cfg now s idx = in_grace cfg now s' idx.
+Proof. intros. unfold in_grace, name_for_idx. rewrite H, H0. reflexivity. Qed.
+
+Arguments set : simpl never.
+Arguments nl_call : simpl never.
+Arguments handle : simpl never.
+Arguments filter_error : simpl never.
+Arguments planned : simpl never.
+Arguments in_grace : simpl never.
+Arguments kroute_is_ours : simpl never.
+
+(* ---------- netlink plumbing never touches the state proper or the kernel ---------- *)
+Lemma nl_call_frame : forall p op w f w', nl_call p op w = (f, w') -> w_st w' = w_st w /\ w_env w' = w_env w.
+Proof. unfold nl_call. intros. inversion H. simpl. auto. Qed.
+Opaque nl_call.
+
+Lemma handle_frame : forall p w b w', handle p w = (b, w') -> w_st w' = w_st w /\ w_env w' = w_env w.
+Proof.
+  unfold handle. intros p w b w' H.
+  destruct (if w_reopen w && w_cached w then false else w_cached w).
+  - inversion H. simpl. auto.
+  - destruct (nl_call p NConn (wconn w false false)) as [f w1] eqn:E.
+    apply nl_call_frame in E. simpl in E. destruct E as [E1 E2].
+    destruct f; inversion H; subst; simpl; auto.
+Qed.
+Opaque handle.
+
+Lemma list_retry_frame : forall p op fuel w b w', list_retry p op fuel w = (b, w') -> w_st w' = w_st w /\ w_env w' = w_env w.
+Proof.
+  induction fuel; simpl; intros.
+  - inversion H. auto.
+  - destruct (nl_call p op w) as [f w1] eqn:E. apply nl_call_frame in E. destruct E as [E1 E2].
+    destruct f as [[| |]|].
+    + inversion H; subst; split; assumption.
+    + apply IHfuel in H. destruct H as [H1 H2]. rewrite H1, H2. split; assumption.
+    + inversion H; subst; split; assumption.
+    + inversion H; subst; split; assumption.
+Qed.
+
+Lemma filter_error_frame : forall p name w fe w', filter_error p name w = (fe, w') -> w_st w' = w_st w /\ w_env w' = w_env w.
+Proof.
+  unfold filter_error. intros p name w fe w' H.
+  destruct (String.eqb name NoOIF). { inversion H; auto. }
+  destruct (handle p w) as [ok w1] eqn:E1. apply handle_frame in E1. destruct E1 as [A1 A2].
+  destruct ok; simpl in H.
+  2:{ inversion H; subst; auto. }
+  destruct (nl_call p (NLinkByName name) w1) as [f w2] eqn:E2. apply nl_call_frame in E2. destruct E2 as [B1 B2].
+  assert (w_st w2 = w_st w /\ w_env w2 = w_env w) as G by (rewrite B1, B2; auto).
+  destruct f as [[| |]|]; try (inversion H; subst; exact G).
+  destruct (lookup String.eqb (e_links (w_env w2)) name) as [l|]; [destruct (l_up l)|]; inversion H; subst; exact G.
+Qed.
+Opaque filter_error.
+
+(* ---------- one step of the deletion pass / the update pass of applyUpdates ---------- *)
+Lemma del_step_cases : forall cfg p err w k err' w',
+  del_step cfg p (err, w) k = (err', w') ->
+  (w_st w' = w_st w /\ w_env w' = w_env w /\ err' = err /\
+     (forall r, lookup rkey_eqb (s_dp (w_st w)) k = Some r -> lookup rkey_eqb (s_desired (w_st w)) k = None ->
+                in_grace cfg (e_now (w_env w)) (w_st w) (kr_ifx r) = true))
+  \/ (w_st w' = w_st w /\ w_env w' = w_env w /\ err' = true)
+  \/ (exists r, lookup rkey_eqb (s_dp (w_st w)) k = Some r /\ lookup rkey_eqb (s_desired (w_st w)) k = None /\
+        w_st w' = upd_dp (w_st w) (remove rkey_eqb (s_dp (w_st w)) k) /\
+        w_env w' = env_del_route (w_env w) (c_table cfg, k) /\ err' = err).
+Proof.
+  intros cfg p err w k err' w' H. unfold del_step in H.
+  destruct (lookup rkey_eqb (s_dp (w_st w)) k) as [r|] eqn:Edp.
+  2:{ injection H as <- <-. left. repeat split; auto. intros; discriminate. }
+  destruct (lookup rkey_eqb (s_desired (w_st w)) k) as [d|] eqn:Edes.
+  { injection H as <- <-. left. repeat split; auto. intros; discriminate. }
+  destruct (in_grace cfg (e_now (w_env w)) (w_st w) (kr_ifx r)) eqn:Eg.
+  { injection H as <- <-. left. repeat split; auto. intros r0 Hr _. inversion Hr; subst; auto. }
+  destruct (nl_call p (NDel k) w) as [f w1] eqn:Ec. apply nl_call_frame in Ec. destruct Ec as [C1 C2].
+  destruct f.
+  - injection H as <- <-. right; left. auto.
+  - injection H as <- <-. right; right. exists r. simpl. rewrite C1, C2. auto.
+Qed.
+
+Lemma upd_step_cases : forall cfg p err w k err' w',
+  upd_step cfg p (err, w) k = (err', w') ->
+  (w_st w' = w_st w /\ w_env w' = w_env w /\ err' = err /\
+     (forall d, lookup rkey_eqb (s_desired (w_st w)) k = Some d -> lookup rkey_eqb (s_dp (w_st w)) k = Some d))
+  \/ (w_st w' = w_st w /\ w_env w' = w_env w /\ err' = true)
+  \/ (exists name, w_st w' = upd_rescan (w_st w) (sadd String.eqb name (s_rescan (w_st w))) /\ w_env w' = w_env w /\ err' = err)
+  \/ (exists d, lookup rkey_eqb (s_desired (w_st w)) k = Some d /\
+        w_st w' = upd_dp (w_st w) (set rkey_eqb (s_dp (w_st w)) k d) /\
+        w_env w' = env_set_route (w_env w) (c_table cfg, k) d /\ err' = err).
+Proof.
+  intros cfg p err w k err' w' H. unfold upd_step in H.
+  destruct (lookup rkey_eqb (s_desired (w_st w)) k) as [d|] eqn:Edes.
+  2:{ injection H as <- <-. left. repeat split; auto. intros; discriminate. }
+  destruct (negb match lookup rkey_eqb (s_dp (w_st w)) k with Some r => negb (kroute_eqb r d) | None => true end) eqn:Epend.
+  { injection H as <- <-. left. repeat split; auto. intros d0 Hd. inversion Hd; subst.
+    destruct (lookup rkey_eqb (s_dp (w_st w)) k) as [r|]; simpl in Epend; try discriminate.
+    rewrite negb_involutive in Epend. apply kroute_eqb_spec in Epend. subst. reflexivity. }
+  destruct (nl_call p (NReplace k) w) as [f w1] eqn:Ec. apply nl_call_frame in Ec. destruct Ec as [C1 C2].
+  destruct f as [fk|].
+  2:{ injection H as <- <-. right; right; right. exists d. simpl. rewrite C1, C2. auto. }
+  destruct (name_for_idx (w_st w1) (kr_ifx d)) as [name|].
+  2:{ injection H as <- <-. right; left. auto. }
+  assert (forall fe w2, (fe, w2) = match fk with
+                                   | FNotFound => if String.eqb name NoOIF then (EDefault, w1) else (EIfaceNotPresent, w1)
+                                   | _ => filter_error p name w1
+                                   end -> w_st w2 = w_st w /\ w_env w2 = w_env w) as FR.
+  { intros fe w2 E. destruct fk.
+    - symmetry in E. apply filter_error_frame in E. destruct E as [E1 E2]. rewrite E1, E2. auto.
+    - symmetry in E. apply filter_error_frame in E. destruct E as [E1 E2]. rewrite E1, E2. auto.
+    - destruct (String.eqb name NoOIF); injection E as -> ->; auto. }
+  destruct (match fk with
+            | FNotFound => if String.eqb name NoOIF then (EDefault, w1) else (EIfaceNotPresent, w1)
+            | _ => filter_error p name w1
+            end) as [fe w2] eqn:E2.
+  destruct (FR fe w2 eq_refl) as [F1 F2].
+  destruct fe; injection H as <- <-.
+  - right; left. auto.
+  - right; right; left. exists name. simpl. rewrite F1, F2. auto.
+  - right; right; left. exists name. simpl. rewrite F1, F2. auto.
+  - right; left. auto.
+Qed.
+
+(* ---------- the kernel table under single-route writes ---------- *)
+Lemma tbl_del_eq : forall cfg e k, tbl cfg (env_del_route e (c_table cfg, k)) k = None.
+Proof. intros. unfold tbl, env_del_route. simpl. apply lookup_remove_eq. Qed.
+
+Lemma tbl_del_neq : forall cfg e k k', k <> k' -> tbl cfg (env_del_route e (c_table cfg, k)) k' = tbl cfg e k'.
+Proof. intros. unfold tbl, env_del_route. simpl. apply (lookup_remove_neq kkey_eqb kkey_eqb_spec). congruence. Qed.
+
+Lemma tbl_set_eq : forall cfg e k d, tbl cfg (env_set_route e (c_table cfg, k) d) k = Some d.
+Proof. intros. unfold tbl, env_set_route. simpl. apply (lookup_set_eq kkey_eqb kkey_eqb_spec). Qed.
+
+Lemma tbl_set_neq : forall cfg e k k' d, k <> k' -> tbl cfg (env_set_route e (c_table cfg, k) d) k' = tbl cfg e k'.
+Proof. intros. unfold tbl, env_set_route. simpl. apply (lookup_set_neq kkey_eqb kkey_eqb_spec). congruence. Qed.
+
+Lemma other_del : forall cfg e k kk, fst kk <> c_table cfg ->
+  lookup kkey_eqb (e_routes (env_del_route e (c_table cfg, k))) kk = lookup kkey_eqb (e_routes e) kk.
+Proof. intros. unfold env_del_route. simpl. apply (lookup_remove_neq kkey_eqb kkey_eqb_spec). destruct kk; simpl in *; congruence. Qed.
+
+Lemma other_set : forall cfg e k d kk, fst kk <> c_table cfg ->
+  lookup kkey_eqb (e_routes (env_set_route e (c_table cfg, k) d)) kk = lookup kkey_eqb (e_routes e) kk.
+Proof. intros. unfold env_set_route. simpl. apply (lookup_set_neq kkey_eqb kkey_eqb_spec). destruct kk; simpl in *; congruence. Qed.
+
+Lemma rkey_dec : forall a b : rkey, a = b \/ a <> b.
+Proof. intros. destruct (rkey_eqb a b) eqn:E; [left; apply rkey_eqb_spec; auto | right; intro; subst; rewrite (keq_refl rkey_eqb rkey_eqb_spec) in E; discriminate]. Qed.
+
+(* what stays fixed during applyUpdates *)
+Record frame (cfg : config) (w0 w : world) : Prop := {
+  fr_des : s_desired (w_st w) = s_desired (w_st w0);
+  fr_i2n : s_i2n (w_st w) = s_i2n (w_st w0);
+  fr_grace : s_grace (w_st w) = s_grace (w_st w0);
+  fr_now : e_now (w_env w) = e_now (w_env w0);
+  fr_other : forall kk, fst kk <> c_table cfg ->
+             lookup kkey_eqb (e_routes (w_env w)) kk = lookup kkey_eqb (e_routes (w_env w0)) kk
+}.
+
+Lemma frame_refl : forall cfg w, frame cfg w w.
+Proof. intros; constructor; auto. Qed.
+
+Lemma frame_trans : forall cfg a b c, frame cfg a b -> frame cfg b c -> frame cfg a c.
+Proof.
+  intros cfg a b c [A1 A2 A3 A4 A5] [B1 B2 B3 B4 B5]. constructor; try congruence.
+  intros. rewrite B5, A5; auto.
+Qed.
+
+Definition dpk (w : world) (k : rkey) := lookup rkey_eqb (s_dp (w_st w)) k.
+Definition desk (w : world) (k : rkey) := lookup rkey_eqb (s_desired (w_st w)) k.
+
+(* --- deletion pass --- *)
+Definition del_rel (cfg : config) (w0 w : world) : Prop :=
+  frame cfg w0 w /\ s_rescan (w_st w) = s_rescan (w_st w0) /\
+  forall k, (dpk w k = dpk w0 k /\ tbl cfg (w_env w) k = tbl cfg (w_env w0) k)
+            \/ (dpk w k = None /\ tbl cfg (w_env w) k = None /\ exists r, dpk w0 k = Some r /\ desk w0 k = None).
+
+Lemma del_rel_refl : forall cfg w, del_rel cfg w w.
+Proof. intros. split; [apply frame_refl|]. split; auto. Qed.
+
+Lemma del_rel_trans : forall cfg a b c, del_rel cfg a b -> del_rel cfg b c -> del_rel cfg a c.
+Proof.
+  intros cfg a b c [F1 [R1 K1]] [F2 [R2 K2]]. split; [eapply frame_trans; eauto|]. split; [congruence|].
+  intros k. destruct (K2 k) as [[D2 T2]|[D2 [T2 [r [X2 Y2]]]]]; destruct (K1 k) as [[D1 T1]|[D1 [T1 [r1 [X1 Y1]]]]].
+  - left. split; congruence.
+  - right. repeat split; try congruence. exists r1; auto.
+  - right. repeat split; auto. exists r. split; [congruence|]. unfold desk in *. rewrite <- (fr_des _ _ _ F1). auto.
+  - right. repeat split; auto. exists r1; auto.
+Qed.
+
+Lemma del_step_rel : forall cfg p err w k err' w',
+  del_step cfg p (err, w) k = (err', w') -> del_rel cfg w w'.
+Proof.
+  intros cfg p err w k err' w' H. apply del_step_cases in H.
+  destruct H as [[S [E _]]|[[S [E _]]|[r [Hdp [Hdes [S [E _]]]]]]].
+  - split; [constructor; rewrite ?S, ?E; auto|]. split; [rewrite S; auto|]. intros k0. left. unfold dpk. rewrite S, E. auto.
+  - split; [constructor; rewrite ?S, ?E; auto|]. split; [rewrite S; auto|]. intros k0. left. unfold dpk. rewrite S, E. auto.
+  - split; [constructor; rewrite ?S, ?E; simpl; auto; intros; apply other_del; auto|]. split; [rewrite S; auto|].
+    intros k0. destruct (rkey_dec k k0) as [->|N].
+    + right. unfold dpk. rewrite S, E. simpl. rewrite lookup_remove_eq, tbl_del_eq. repeat split; auto. exists r. auto.
+    + left. unfold dpk. rewrite S, E. simpl. rewrite (lookup_remove_neq rkey_eqb rkey_eqb_spec) by auto. rewrite tbl_del_neq by auto. auto.
+Qed.
+
+Lemma del_step_sticky : forall cfg p w k err' w', del_step cfg p (true, w) k = (err', w') -> err' = true.
+Proof.
+  intros cfg p w k err' w' H. apply del_step_cases in H.
+  destruct H as [[_ [_ [E _]]]|[[_ [_ E]]|[r [_ [_ [_ [_ E]]]]]]]; auto.
+Qed.
+
+Lemma del_fold : forall cfg p ks e0 w0 e w,
+  fold_left (del_step cfg p) ks (e0, w0) = (e, w) ->
+  del_rel cfg w0 w /\ (e0 = true -> e = true) /\
+  (e = false -> forall k, In k ks -> forall r, dpk w k = Some r -> desk w0 k = None ->
+                in_grace cfg (e_now (w_env w0)) (w_st w0) (kr_ifx r) = true).
+Proof.
+  induction ks as [|k ks IH]; intros e0 w0 e w H; cbn [fold_left] in H.
+  - injection H as <- <-. split; [apply del_rel_refl|]. split; [auto|]. intros _ k [].
+  - destruct (del_step cfg p (e0, w0) k) as [e1 w1] eqn:S1.
+    destruct (IH _ _ _ _ H) as [R [ST G]].
+    pose proof (del_step_rel _ _ _ _ _ _ _ S1) as R1.
+    split; [eapply del_rel_trans; eauto|]. split.
+    + intros ->. apply ST. eapply del_step_sticky; eauto.
+    + intros Ef k0 [<-|Hin] r Hr Hd.
+      * (* the key handled by this step *)
+        destruct R as [_ [_ RK]].
+        assert (dpk w1 k = Some r) as Hr1.
+        { destruct (RK k) as [[D _]|[D _]]; congruence. }
+        apply del_step_cases in S1.
+        destruct S1 as [[S [E [_ GG]]]|[[_ [_ E1]]|[r' [_ [_ [S _]]]]]].
+        -- apply GG; auto. unfold dpk in Hr1. rewrite S in Hr1. auto.
+        -- subst e1. rewrite (ST eq_refl) in Ef. discriminate.
+        -- unfold dpk in Hr1. rewrite S in Hr1. simpl in Hr1. rewrite lookup_remove_eq in Hr1. discriminate.
+      * destruct R1 as [F1 _].
+        rewrite <- (fr_now _ _ _ F1).
+        rewrite <- (in_grace_ext cfg _ (w_st w1) (w_st w0)) by (apply F1).
+        apply (G Ef k0 Hin r Hr). unfold desk in *. rewrite (fr_des _ _ _ F1). auto.
+Qed.
+
+(* --- update pass --- *)
+Lemma sadd_nonempty : forall {A} (eq : A -> A -> bool) x l, sadd eq x l <> [].
+Proof. intros. unfold sadd. destruct (mem eq x l) eqn:E; [|discriminate]. destruct l; [simpl in E; discriminate|discriminate]. Qed.
+
+Definition upd_rel (cfg : config) (w0 w : world) : Prop :=
+  frame cfg w0 w /\ (s_rescan (w_st w0) <> [] -> s_rescan (w_st w) <> []) /\
+  forall k, (dpk w k = dpk w0 k /\ tbl cfg (w_env w) k = tbl cfg (w_env w0) k)
+            \/ (exists d, desk w0 k = Some d /\ dpk w k = Some d /\ tbl cfg (w_env w) k = Some d).
+
+Lemma upd_rel_refl : forall cfg w, upd_rel cfg w w.
+Proof. intros. split; [apply frame_refl|]. split; auto. Qed.
+
+Lemma upd_rel_trans : forall cfg a b c, upd_rel cfg a b -> upd_rel cfg b c -> upd_rel cfg a c.
+Proof.
+  intros cfg a b c [F1 [R1 K1]] [F2 [R2 K2]]. split; [eapply frame_trans; eauto|]. split; [auto|].
+  intros k. destruct (K2 k) as [[D2 T2]|[d [X2 [Y2 Z2]]]].
+  - destruct (K1 k) as [[D1 T1]|[d [X1 [Y1 Z1]]]].
+    + left. split; congruence.
+    + right. exists d. repeat split; congruence.
+  - right. exists d. repeat split; auto. unfold desk in *. rewrite <- (fr_des _ _ _ F1). auto.
+Qed.
+
+Lemma upd_step_rel : forall cfg p err w k err' w',
+  upd_step cfg p (err, w) k = (err', w') -> upd_rel cfg w w'.
+Proof.
+  intros cfg p err w k err' w' H. apply upd_step_cases in H.
+  destruct H as [[S [E _]]|[[S [E _]]|[[name [S [E _]]]|[d [Hdes [S [E _]]]]]]].
+  - split; [constructor; rewrite ?S, ?E; auto|]. split; [rewrite S; auto|]. intros k0. left. unfold dpk. rewrite S, E. auto.
+  - split; [constructor; rewrite ?S, ?E; auto|]. split; [rewrite S; auto|]. intros k0. left. unfold dpk. rewrite S, E. auto.
+  - split; [constructor; rewrite ?S, ?E; simpl; auto|]. split; [rewrite S; simpl; intros _; apply sadd_nonempty|].
+    intros k0. left. unfold dpk. rewrite S, E. auto.
+  - split; [constructor; rewrite ?S, ?E; simpl; auto; intros; apply other_set; auto|]. split; [rewrite S; auto|].
+    intros k0. destruct (rkey_dec k k0) as [->|N].
+    + right. exists d. unfold dpk. rewrite S, E. cbn [s_dp upd_dp].
+      rewrite (lookup_set_eq rkey_eqb rkey_eqb_spec), tbl_set_eq. auto.
+    + left. unfold dpk. rewrite S, E. cbn [s_dp upd_dp]. rewrite (lookup_set_neq rkey_eqb rkey_eqb_spec) by auto. rewrite tbl_set_neq by auto. auto.
+Qed.
+
+Lemma upd_step_sticky : forall cfg p w k err' w', upd_step cfg p (true, w) k = (err', w') -> err' = true.
+Proof.
+  intros cfg p w k err' w' H. apply upd_step_cases in H.
+  destruct H as [[_ [_ [E _]]]|[[_ [_ E]]|[[name [_ [_ E]]]|[d [_ [_ [_ E]]]]]]]; auto.
+Qed.
+
+Lemma upd_fold : forall cfg p ks e0 w0 e w,
+  fold_left (upd_step cfg p) ks (e0, w0) = (e, w) ->
+  upd_rel cfg w0 w /\ (e0 = true -> e = true) /\
+  (e = false -> s_rescan (w_st w) = [] -> forall k, In k ks -> forall d, desk w0 k = Some d -> dpk w k = Some d).
+Proof.
+  induction ks as [|k ks IH]; intros e0 w0 e w H; cbn [fold_left] in H.
+  - injection H as <- <-. split; [apply upd_rel_refl|]. split; [auto|]. intros _ _ k [].
+  - destruct (upd_step cfg p (e0, w0) k) as [e1 w1] eqn:S1.
+    destruct (IH _ _ _ _ H) as [R [ST G]].
+    pose proof (upd_step_rel _ _ _ _ _ _ _ S1) as R1.
+    split; [eapply upd_rel_trans; eauto|]. split.
+    + intros ->. apply ST. eapply upd_step_sticky; eauto.
+    + intros Ef Er k0 [<-|Hin] d Hd.
+      * destruct R as [F [RM RK]].
+        assert (desk w1 k = Some d) as Hd1.
+        { destruct R1 as [F1 _]. unfold desk in *. rewrite (fr_des _ _ _ F1). auto. }
+        assert (dpk w1 k = Some d -> dpk w k = Some d) as KEEP.
+        { intros X. destruct (RK k) as [[D _]|[d' [X' [Y' _]]]]; congruence. }
+        apply upd_step_cases in S1.
+        destruct S1 as [[S [E [_ GG]]]|[[_ [_ E1]]|[[name [S _]]|[d' [Hd' [S _]]]]]].
+        -- apply KEEP. unfold dpk. rewrite S. apply GG. auto.
+        -- subst e1. rewrite (ST eq_refl) in Ef. discriminate.
+        -- exfalso. apply RM; auto. rewrite S. simpl. apply sadd_nonempty.
+        -- apply KEEP. unfold dpk. rewrite S. cbn [s_dp upd_dp]. unfold desk in Hd. rewrite Hd in Hd'. injection Hd' as <-.
+           apply (lookup_set_eq rkey_eqb rkey_eqb_spec).
+      * destruct R1 as [F1 _]. apply (G Ef Er k0 Hin d). unfold desk in *. rewrite (fr_des _ _ _ F1). auto.
+Qed.
